@@ -114,17 +114,27 @@ def case_buf(spec):
     im = getattr(ImageMode, mode)
     probs = []
     n_fill = n_upd = n_mixed = 0
+    buf = None
+    n_chained = 0
     for _ in range(spec["n"]):
         sh, sw = R.choice([1, 7, 40, 256]), R.choice([1, 9, 33, 256])
-        bh, bw = R.choice([(256, 256), (512, 512), (40, 60), (sh, sw)])
+        chained = buf is not None and R.random() < 0.5
+        if chained:
+            # the SAME buffer object goes through a sequence of fills and updates (as the tilers and samplers re-use theirs):
+            # its current contents are the prior state, whatever operations produced them
+            n_chained += 1
+            snapshot = np.array(buf.asarray())
+            sh, sw = min(sh, bh), min(sw, bw)
+        else:
+            bh, bw = R.choice([(256, 256), (512, 512), (40, 60), (sh, sw)])
+            buf = im.make_maskable_buffer(bh, bw)
+            prior_img, prior = rand_image(rng, "RGBA" if mode == "RGB" else mode, bh, bw, R.choice([0.0, 0.5, 1.0]))
+            b = buf._as_writeable_array()
+            b[...] = prior
+            snapshot = np.array(b)
         img, src = rand_image(rng, mode, sh, sw, R.choice([0.0, 0.3, 0.9, 1.0]))
-        buf = im.make_maskable_buffer(bh, bw)
-        prior_img, prior = rand_image(rng, "RGBA" if mode == "RGB" else mode, bh, bw, R.choice([0.0, 0.5, 1.0]))
         iy, ix, by, bx, kind = rand_rect(R, sh, sw, bh, bw)
         op = R.choice(["fill", "update", "update", "fill_paired"])
-        b = buf._as_writeable_array()
-        b[...] = prior
-        snapshot = np.array(b)
         if op == "fill":
             img.fill_into_maskable_buffer(buf, iy, ix, by, bx)
             exp = contracts.reference_fill(src, mode, snapshot.shape, snapshot.dtype, iy, ix, by, bx)
@@ -158,7 +168,7 @@ def case_buf(spec):
             n_mixed += 1
         if len(probs) > 5:
             break
-    r = dict(counters={"fill_cases": n_fill, "update_cases": n_upd, "buf_mode_" + mode: 1}, nontrivial=n_mixed > 0, sample=dict(spec=spec))
+    r = dict(counters={"fill_cases": n_fill, "update_cases": n_upd, "ops_on_a_reused_buffer": n_chained, "buf_mode_" + mode: 1}, nontrivial=n_mixed > 0, sample=dict(spec=spec))
     if probs:
         keys = sorted({k for k, _ in probs})
         r.update(status="violation", key="mask-semantics:" + "+".join(keys), detail="; ".join(t for _, t in probs[:4]))
@@ -184,7 +194,9 @@ def case_hist(spec, workdir):
     # the pyramid's default format may differ from the format the caller names explicitly in every call
     explicit = R.random() < 0.4
     dflt = fmt if not explicit else R.choice([f for f in ("png", "npy", "fits") if f != fmt])
-    pio = PyramidIO(base, default_format=dflt)
+    # one to three handles on the same directory (other workers, a later run): every step goes through one of them
+    handles = [PyramidIO(base, default_format=dflt) for _ in range(R.choice([1, 2, 2, 3]))]
+    pio = handles[0]
     fkw = dict(format=fmt) if explicit else {}
     pos = Pos(2, R.randrange(4), R.randrange(4))
     im = getattr(ImageMode, mode)
@@ -215,6 +227,7 @@ def case_hist(spec, workdir):
         if mode == "RGB" and op in ("write_masked",):
             op = "write"
         ops.append(op)
+        pio = R.choice(handles)
         if op == "write":
             img, a = rand_image(rng, mode, 256, 256, R.choice([0.0, 0.5, 0.99]))
             pio.write_image(pos, Image.from_array(a.copy(), default_format=fmt), **fkw)
@@ -288,7 +301,7 @@ def case_hist(spec, workdir):
             if not np.array_equal(bd, bystander[1], equal_nan=bystander[1].dtype.kind == "f"):
                 probs.append(("bystander-destroyed", "step %d (%s in format %s): the unrelated %s tile at the same position was modified" % (step, ops[-1], fmt, bystander[0])))
                 break
-    r = dict(counters={"histories": 1, "history_steps": len(ops), "pair_%s_%s" % (fmt, mode): 1, "histories_explicit_format": int(explicit)}, nontrivial=len(set(ops)) >= 3,
+    r = dict(counters={"histories": 1, "history_steps": len(ops), "pair_%s_%s" % (fmt, mode): 1, "histories_explicit_format": int(explicit), "histories_several_handles": int(len(handles) > 1)}, nontrivial=len(set(ops)) >= 3,
              sets=dict(fmt_mode=[[fmt, mode]]), sample=dict(spec=spec, prior=prior, ops=ops))
     if probs:
         keys = sorted({k for k, _ in probs})
